@@ -375,6 +375,10 @@ func lz(b []byte) int {
 func c05temp(c *wk.Ctx, idx int, newNonce, serverNonce, pay []byte, ns, ss string) {
 	nnI := new(big.Int).SetBytes(newNonce)
 	snI := new(big.Int).SetBytes(serverNonce)
+	if idx%2 == 0 { // a caller that keeps one big.Int per nonce and sets it in place for the next exchange / retry
+		nnI = c05reusedNew.SetBytes(newNonce)
+		snI = c05reusedSrv.SetBytes(serverNonce)
+	}
 	zsig := fmt.Sprintf("lz_new=%d/lz_srv=%d", min(lz(newNonce), 1), min(lz(serverNonce), 1))
 	if ns == "zero" || ss == "zero" {
 		zsig += "/allzero"
@@ -437,3 +441,5 @@ func c05temp(c *wk.Ctx, idx int, newNonce, serverNonce, pay []byte, ns, ss strin
 		c.Sample(map[string]interface{}{"kind": "temp", "payload_len": len(pay), "residue": res, "new_nonce": fmt.Sprintf("%x", newNonce), "server_nonce": fmt.Sprintf("%x", serverNonce)})
 	}
 }
+
+var c05reusedNew, c05reusedSrv = new(big.Int), new(big.Int)
